@@ -65,6 +65,7 @@ func (c *Ctx) c13Program(s *Sub, sub string, seed seedProg, nBatch, nCLI int, ob
 func c13ObjectProgram(rt *rapid.T) (string, []string) {
 	var b strings.Builder
 	b.WriteString("ফাংশন t(tag, v) { দেখাও tag; ফেরত v; }\n")
+	b.WriteString(bn.KwFun + " t2(v, w) { " + bn.KwReturn + " [v, w]; }\n")
 	keys := []string{"zeta", "alpha", "mid", "ক", "b2", "k", "y", "omega"}
 	if rapid.Bool().Draw(rt, "equivalentKeys") {
 		// property names that are canonically equivalent but differently encoded are distinct keys
@@ -78,6 +79,7 @@ func c13ObjectProgram(rt *rapid.T) (string, []string) {
 	// a property name may be written more than once in one literal: every
 	// initialiser still runs, in source order, and the last one gives the value
 	repeatKeys := rapid.Bool().Draw(rt, "repeatKeys")
+	nested := rapid.Bool().Draw(rt, "nestedInitialisers")
 	nObj := rapid.IntRange(1, 3).Draw(rt, "nobj")
 	for o := 0; o < nObj; o++ {
 		n := rapid.IntRange(2, 6).Draw(rt, "nkeys")
@@ -101,8 +103,32 @@ func c13ObjectProgram(rt *rapid.T) (string, []string) {
 				continue
 			}
 			tag := fmt.Sprintf("o%d-%s-%d", o, k, i)
-			order = append(order, tag)
-			parts = append(parts, fmt.Sprintf("%s: t(\"%s\", %d)", k, tag, 10*o+i))
+			// an initialiser is a probe or a nest of literals and calls holding probes; the tags are numbered in
+			// the order in which they are written
+			sub := 0
+			var value func(d int) string
+			value = func(d int) string {
+				form := 0
+				if nested && d > 0 {
+					form = rapid.IntRange(0, 5).Draw(rt, "valueForm")
+				}
+				switch form {
+				case 1:
+					return "{in1: " + value(d-1) + ", in2: " + value(d-1) + "}"
+				case 2:
+					return "[" + value(d-1) + ", " + value(d-1) + "]"
+				case 3:
+					return "{only: " + value(d-1) + "}"
+				case 4:
+					return "t2(" + value(d-1) + ", " + value(d-1) + ")"
+				default:
+					sub++
+					tg := fmt.Sprintf("%s.%d", tag, sub)
+					order = append(order, tg)
+					return fmt.Sprintf("t(\"%s\", %d)", tg, 10*o+i)
+				}
+			}
+			parts = append(parts, k+": "+value(2))
 		}
 		fmt.Fprintf(&b, "%s obj%d = {%s};\n", bn.KwVar, o, strings.Join(parts, ", "))
 		fmt.Fprintf(&b, "%s \"listing\";\n%s %s(obj%d);\n%s %s(obj%d);\n%s obj%d;\n", bn.KwPrint, bn.KwPrint, bn.BKeys, o, bn.KwPrint, bn.BValues, o, bn.KwPrint, o)
@@ -177,6 +203,9 @@ func TestC13(t *testing.T) {
 			for run := 0; run < 3; run++ {
 				cr := c.CLIScript(src, "", 300*time.Second)
 				c.Ev.Case("long-output", fmt.Sprintf("%d lines, run %d", lines, run), true, "long-output")
+				if cr.Truncated {
+					s.Harness("the capture limit of the harness cut the output of the long-output program short")
+				}
 				got := strings.Count(cr.Stdout, "\n")
 				if cr.TimedOut || cr.Status != 0 || got != lines+1 || !strings.HasPrefix(cr.Stdout, "1\n2\n3\n") || !strings.Contains(cr.Stdout[max(0, len(cr.Stdout)-40):], "checksum ") {
 					s.Violation(Replay{Check: "determinism", Sig: "long-output-incomplete", Source: src, Note: fmt.Sprintf("a program printing %d lines and a checksum printed %d lines (status %d)", lines, got, cr.Status), Observed: clip(cr.Stdout[max(0, len(cr.Stdout)-200):], 200)})
